@@ -21,6 +21,14 @@ def sh(cmd, cwd=None, timeout=7200, env=None):
 
 
 os.makedirs("/root/scratch/vseed", exist_ok=True)
+if "VERIF_SRC" not in os.environ:
+    # screen with the COMMITTED /verif (edits in progress in the working tree must not leak into a screening run)
+    sha = sh("git -C /verif rev-parse HEAD")[1].strip()
+    snap = "/root/scratch/vsnap/" + sha
+    if not os.path.exists(snap + "/.done"):
+        os.makedirs(snap, exist_ok=True)
+        sh("git -C /verif archive HEAD | tar -x -C %s && touch %s/.done" % (snap, snap))
+    os.environ["VERIF_SRC"] = snap
 sh("rsync -a --delete --exclude work --exclude .git --exclude __pycache__ --exclude harness/target %s/ %s/" % (os.environ.get("VERIF_SRC", "/verif"), clone))
 ct = re.sub(r'path = "[^"]*/yarel"', 'path = "%s/yarel"' % wt, open(clone + "/harness/Cargo.toml").read())
 open(clone + "/harness/Cargo.toml", "w").write(ct)
